@@ -156,6 +156,44 @@ func c01Witnesses() []*Spec {
 	}
 }
 
+// shrunkGroupSpecs: members of one group registered around Remove steps, so that the collection
+// has the SAME number of entries when two members of the group are added (and every other
+// combination nearby). A member's place in its group is its identity; whatever else an
+// implementation derives it from - the size of the collection, a running count that Remove
+// rewinds - makes two members coincide here: one constructor then serves both and the other
+// never runs.
+func shrunkGroupSpecs(life godi.Lifetime) []*Spec {
+	fillers := []string{"Leaf_K0_a", "Leaf_K2_a", "Leaf_K3_a", "Leaf_S0_a"}
+	ftypes := []string{"K0", "K2", "K3", "S0"}
+	members := []string{"Leaf_K1_a", "Leaf_K1_b", "Leaf_K1_c"}
+	var out []*Spec
+	for a := 0; a <= 2; a++ {
+		for b := 0; b <= 1; b++ {
+			for r := 1; r <= a+b; r++ {
+				for third := 0; third < 2; third++ {
+					s := &Spec{}
+					for i := 0; i < a; i++ {
+						s.Regs = append(s.Regs, mkReg(fillers[i], life))
+					}
+					s.Regs = append(s.Regs, mkReg(members[0], life, withGroup("g")))
+					if third == 1 {
+						s.Regs = append(s.Regs, mkReg(members[2], life, withGroup("g")))
+					}
+					for i := a; i < a+b; i++ {
+						s.Regs = append(s.Regs, mkReg(fillers[i], life))
+					}
+					for i := 0; i < r; i++ {
+						s.Regs = append(s.Regs, Reg{Remove: true, RmType: ftypes[i], Tail: true})
+					}
+					s.Regs = append(s.Regs, tailReg(mkReg(members[1], life, withGroup("g"))))
+					out = append(out, s)
+				}
+			}
+		}
+	}
+	return out
+}
+
 func singletonObservations(r *Run, o *Obs) (perReg map[int]int) {
 	perReg = map[int]int{}
 	for _, d := range o.Deliveries {
@@ -209,7 +247,7 @@ func runC01(c *eng.Ctx) {
 		}
 		c.R.End(idx, eng.Hash(kind, r.Spec.Canon(), len(r.Ops)), nt && r.Built)
 	}
-	for wi, s := range c01Witnesses() {
+	for wi, s := range append(c01Witnesses(), shrunkGroupSpecs(godi.Singleton)...) {
 		if m := NewModel(s); m.Class != ClsOK {
 			panic(fmt.Sprintf("harness fixture %d of C01 (witnesses) is not buildable: %s", wi, m.Class))
 		}
@@ -386,6 +424,7 @@ func runC03(c *eng.Ctx) {
 		if C03Concurrent != nil {
 			C03Concurrent(c, cr.next)
 		}
+		RunTransientHooks(c, cr.next)
 	}()
 	finish := func(idx int, r *Run, kind string) {
 		o := Digest(r)
